@@ -224,7 +224,7 @@ pub fn find_relaxed_naf(num: &[u64]) -> Vec<i8> {
     let mut res = find_naf(num);
 
     let len = res.len();
-    if res[len - 2] == 0 && res[len - 3] == -1 {
+    if len >= 3 && res[len - 2] == 0 && res[len - 3] == -1 {
         res[len - 3] = 1;
         res[len - 2] = 1;
         res.resize(len - 1, 0);
